@@ -7,12 +7,20 @@ TRUSTED = ["node identity in errs entries is mapped to child-index paths by obje
 
 def make_cases(ctx, tg, n):
     rng = ctx.rng
-    roots = ["eml", "dataset", "dataTable", "creator", "attribute", "methods", "additionalMetadata", "project", "coverage", "otherEntity"]
+    roots = ["eml", "dataset", "dataTable", "creator", "attribute", "methods", "additionalMetadata", "project", "coverage", "otherEntity",
+             "boundingCoordinates", "geographicCoverage", "physical"]
     for i in range(n):
         e = rng.choice(roots)
         t = tg.valid_tree(e, rng, maxdepth=rng.choice([2, 3, 4]), rep=rng.choice([1, 2]))
         k = rng.choice([0, 1, 2, 3, 4, 6])
         muts = gen.mutate(t, rng, tg, k)
+        if rng.random() < 0.25:
+            # several independently invalid typed values in one tree (an error reported for one node must not silence a later node's check)
+            typed = [x for _, x in gen.nodes_of(t) if x[1] in tg.ri.mappings and
+                     any(cr.startswith(("float", "int", "time", "yearDate", "uri")) for cr in tg.ri.rules[tg.ri.mappings[x[1]]][2].get("content_rules", []))]
+            for x in rng.sample(typed, min(len(typed), rng.choice([2, 3, 5]))):
+                x[2] = rng.choice(["west", "500.0", "-181", "91.5", "abc", "nan", "-1", "25:00:00", "2021-13-01", "ftp://"])
+                muts.append(("typed-many", x[1]))
         # plant metadata with arbitrary foreign content somewhere in a third of the cases
         if rng.random() < 0.4:
             foreign = impl.T(rng.choice(["zzForeign", "dataset", "stmml:unitList"]), gen.rand_text(rng),
